@@ -28,7 +28,7 @@ ACC = "DecFileParser._add_charge_conjugate_decays"
 
 def run(ctx, ss):
     for r, f in (("C03.1", c03_1), ("C03.2", c03_2), ("C03.3", c03_3), ("C03.4", c03_4), ("C03.5", c03_5),
-                 ("C03.6", c03_6), ("C03.7", c03_7)):
+                 ("C03.6", c03_6), ("C03.7", c03_7), ("C03.8", c03_8)):
         ctx.guard(r, f, ss)
 
 
@@ -245,7 +245,7 @@ def c03_6(ctx, ss):
         a = flow.expand(c.args[0])
         # element of [n for n in cdecays if n in mother_names_decays]
         t = txt(a)
-        if t.startswith("__elem__([") and " if " in t and "get_decay_mother_name(" in t and "self._parsed_decays" in t and " in [" in t:
+        if t.startswith("__elem__([") and " if " in t and t.endswith("in [get_decay_mother_name(__elem__(self._parsed_decays)) for tree in self._parsed_decays]])".replace("for tree in", "for " + t.rsplit(" for ", 1)[1].split(" in ")[0] + " in")):
             comp = a.args[0]
             g = comp.generators[0]
             if len(g.ifs) == 1 and isinstance(g.ifs[0], ast.Compare) and isinstance(g.ifs[0].ops[0], ast.In) \
@@ -285,6 +285,48 @@ def c03_6(ctx, ss):
             ctx.holds("C03.6", ckey(ff, None, "miss"), where(ff, st), "a CDecay without a source table is recorded as a miss and adds nothing", 2)
         else:
             ctx.violation("C03.6", ckey(ff, None, "miss"), where(ff, st), "a CDecay without a source table is not handled as a miss")
+
+
+def c03_8(ctx, ss):
+    """Early exits only for an empty work list; every deep copy is conjugated unless its mother is self-conjugate;
+    the switch defaults to on."""
+    ff, flow = fn(ss, DEC, ACC)
+    work = "self.list_charge_conjugate_decays()"
+    for r in [r for r in returns(ff)]:
+        conds = [(txt(flow.expand(e)), pol) for kind, e, pol in guards.path_conditions(ff.node, r) if kind == "if" and pol]
+        k = ckey(ff, None, "early-return")
+        ok = bool(conds) and conds[-1][0] in (f"len({work}) == 0", f"not {work}")
+        (ctx.holds if ok else ctx.violation)("C03.8", k, where(ff, r), "early return only when no CDecay remains to be treated" if ok
+                                              else f"_add_charge_conjugate_decays returns early under {conds}: CDecay statements are silently not honoured")
+    visits = [c for c in pf.calls_in(ff.node) if isinstance(c.func, ast.Attribute) and c.func.attr == "visit" and "ChargeConjugateReplacement" in txt(c.func.value)]
+    for c in visits:
+        lps = [x for x in pf.walk_no_nested(ff.node) if isinstance(x, ast.For) and any(c is y for y in ast.walk(x))]
+        conds = [(txt(e), pol) for kind, e, pol in guards.path_conditions(lps[0] if lps else ff.node, stmt_of(ff, c)) if kind == "if"]
+        tv = txt(lps[0].target) if lps else "?"
+        ok = conds in ([], [(f"_is_not_self_conj({tv})", True)]) and not any(isinstance(x, (ast.Break, ast.Continue)) for x in ast.walk(lps[0])) if lps else False
+        (ctx.holds if ok else ctx.violation)("C03.8", ckey(ff, None, "visit-gate"), where(ff, c),
+                                              "every copy is conjugated unless its mother is self-conjugate" if ok else f"conjugation of a copy is gated by {conds}")
+    mf = pf.module_facts(ss, DEC)
+    hq = f"{ACC}._is_not_self_conj"
+    if hq in mf.funcs:
+        hf = mf.funcs[hq]
+        from ..core.defuse import flow_of
+        hflow = flow_of(ss, hf)
+        falses = [r for r in returns(hf) if isinstance(r.value, ast.Constant) and r.value.value is False]
+        trues = [r for r in returns(hf) if isinstance(r.value, ast.Constant) and r.value.value is True]
+        okf = len(falses) == 1 and len(trues) >= 1 and len(falses) + len(trues) == len(returns(hf))
+        if okf:
+            conds = [(txt(hflow.expand(e)), pol) for kind, e, pol in guards.path_conditions(hf.node, falses[0]) if kind == "if"]
+            okf = len(conds) == 1 and conds[0][1] and conds[0][0].startswith("Particle.from_evtgen_name(") and conds[0][0].endswith(".is_self_conjugate") \
+                and ".children[0].children[0].value" in conds[0][0]
+        (ctx.holds if okf else ctx.violation)("C03.8", ckey(hf, None, "self-conj"), where(hf, hf.node),
+                                              "a copy is left unconjugated exactly when its mother is a self-conjugate particle of the database" if okf
+                                              else "_is_not_self_conj no longer answers False exactly for self-conjugate mothers")
+    pff, _ = fn(ss, DEC, "DecFileParser.parse")
+    d = pff.node.args.defaults
+    okd = len(d) == 1 and isinstance(d[0], ast.Constant) and d[0].value is True
+    (ctx.holds if okd else ctx.violation)("C03.8", ckey(pff, None, "default-on"), where(pff, pff.node),
+                                          "parse() considers CDecay statements by default" if okd else "parse(include_ccdecays=…) no longer defaults to True")
 
 
 def c03_7(ctx, ss):
